@@ -484,7 +484,15 @@ def _run_history(sc, ctx, sim, root, golden, srv, cwd0, ns0):
             oF = run_op(lambda: do_op(F, op))
         finally:
             sim.op_kinds = saved
+            firedF = [(x[1], x[3], x[4]) for x in sim.fired[nf:]]
             del sim.fired[nf:]
+        firedR = [(x[1], x[3], x[4]) for x in sim.fired[nfired:]]
+        if firedR != firedF:
+            # the k-th seam call of the fresh leg is not the call the fault hit on the reused parser (the legs
+            # differ in calls that are not part of any outcome): the fault plans are not comparable, no verdict
+            sim.probe("fault-misaligned")
+            sim.emit("legs", "F", "misaligned")
+            continue
         cF = canon_outcome(oF)
         sim.emit("legs", "F", cR == cF)
         if cR != cF:
@@ -504,6 +512,10 @@ def _run_history(sc, ctx, sim, root, golden, srv, cwd0, ns0):
             ctx.sub_runs += 1
             ctx.sub_seam_calls += resp["val"]["seam_calls"]
             ctx.sub_hits.update(resp["val"]["hits"])
+            if [(x[1], x[3], x[4]) for x in resp["val"]["fired"]] != firedR:
+                sim.probe("fault-misaligned")
+                sim.emit("legs", "P", "misaligned")
+                continue
             cP = resp["val"]["out"]
             sim.emit("legs", "P", cR == cP)
             if json.loads(json.dumps(cR)) != cP:
